@@ -1141,7 +1141,7 @@ func watched(lines []string, f func()) {
 	}()
 	select {
 	case <-done:
-	case <-time.After(20 * time.Second):
+	case <-time.After(120 * time.Second): // generous: a loaded machine must not turn slowness into a verdict
 		onHang(lines)
 		panic("unreachable")
 	}
